@@ -21,8 +21,8 @@ def gate_roles(ctx):
     """(full_gate_bodies, xyz_gate_bodies) found by role in kinematics_impl."""
     prog = ctx.prog
     full, xyz = [], []
-    for b in prog.bodies.values():
-        if not b.path.startswith('kinematics_impl::') or b.local_ty(0) != 'bool':
+    for b in opw.solver_helpers(prog):
+        if b.local_ty(0) != 'bool':
             continue
         tys = [b.local_ty(i) for i in range(1, b.arg_count + 1)]
         names = [cname(callee_name(t)) for _, t in b.calls()]
@@ -332,8 +332,7 @@ def _no_write_after_gate_read(ctx, b, fwd, elem, push_bi, key):
 
 def _post_gate_writes(ctx, prog, methods):
     """R01.5: in the entry points, mutable element access to solution vectors flows only into the near-normaliser."""
-    norm_role = [b for b in prog.bodies.values() if b.path.startswith('kinematics_impl::') and b.arg_count == 2 and
-                 b.local_ty(1) == '&mut f64' and b.local_ty(2) == 'f64' and b.kind == 'Fn' and '::' not in b.path[len('kinematics_impl::'):]]
+    norm_role = [b for b in opw.solver_helpers(prog) if b.arg_count == 2 and b.local_ty(1) == '&mut f64' and b.local_ty(2) == 'f64']
     ctx.require(len(norm_role) >= 1, 'near-normaliser helper fn(&mut f64, f64)')
     npaths = {b.path for b in norm_role}
     for m in util.INVERSE_METHODS:
